@@ -45,7 +45,7 @@ RULE = ("annotations = all expression trees with <= 1 constructor level (DESIGN 
         "{list,Optional,Annotated,Array,tuple[T,U],Union}. Separate classes: "
         "Annotated[T,'m'] (string metadata), the literal None, the literal triples of tests/test_typing.py. Pipelines: "
         "pair/chain/fan-in/fan-out wirings of a sub-alphabet, edges direct / element-wise map / reduction (whole, 'y[i, :]', "
-        "'y[:]'), two-output producers incl. renamed and name-swapped outputs, validate_type_annotations in {True,False}, built by Pipeline([...]) and by add(), in dependency order and reversed (2 nodes: 25 annotations, all "
+        "'y[:]'), two-output producers incl. renamed and name-swapped outputs, validate_type_annotations in {True,False}, built by Pipeline([...]) (from function objects that are RE-ANNOTATED from case to case) and by add() (fresh function objects), in dependency order and reversed (2 nodes: 25 annotations, all "
         "ordered pairs; 3 nodes: 6 annotations per slot, thorough 7). A pair is distinct by "
         "construction (distinct trees) and non-trivial iff the reference verdict is must/must-not and was reached by "
         "descending into union members, generic arguments, TypeVar bounds or a subclass decision (not by identity, Any, "
@@ -574,10 +574,21 @@ WIRINGS = {
 NSLOTS = {"pair": 2, "chain": 4, "fanin": 4, "fanout": 3}
 
 
-def _mkfunc(name, params, annotations):
-    ns: dict = {}
-    exec(f"def {name}({', '.join(params)}):\n    return 0\n", ns)  # noqa: S102
-    fn = ns[name]
+_TEMPLATES: dict = {}
+
+
+def _mkfunc(name, params, annotations, reuse=False):
+    """reuse=True: ONE function object per (name, parameters) for the whole process, re-annotated for every case (what a hint
+    cache keyed by the function object would have to notice)"""
+    key = (name, tuple(params))
+    if reuse and key in _TEMPLATES:
+        fn = _TEMPLATES[key]
+    else:
+        ns: dict = {}
+        exec(f"def {name}({', '.join(params)}):\n    return 0\n", ns)  # noqa: S102
+        fn = ns[name]
+        if reuse:
+            _TEMPLATES[key] = fn
     fn.__annotations__ = annotations
     return fn
 
@@ -622,7 +633,7 @@ def run_pipe(case):  # noqa: C901, PLR0912, PLR0915
                         annotations["return"] = tuple[int, obj(anns[ret_slot])]
                     else:
                         annotations["return"] = tuple[obj(anns[ret_slot]), int]
-                pfs.append(PipeFunc(_mkfunc(name, params, annotations), out, mapspec=mapspec, **({"renames": dict(more[0])} if more else {})))
+                pfs.append(PipeFunc(_mkfunc(name, params, annotations, reuse=(mode == "ctor")), out, mapspec=mapspec, **({"renames": dict(more[0])} if more else {})))
             if mode == "ctor":
                 Pipeline(pfs, validate_type_annotations=validate)
             elif mode == "ctor-reversed":  # consumers listed before their producers
@@ -697,6 +708,9 @@ def run_case(case):
                         f"test_typing.py:{case['line']}: is_type_compatible({show(ta)}, {show(tb)}) = {r}, the test expects {case['expected']}"))
         return out
     if op == "pipe":
+        for earlier in case.get("after", []):
+            # the template functions were first annotated by these cases (in the process that found the violation)
+            run_pipe({**earlier, "op": "pipe"})
         return run_pipe(case)[1]
     raise ValueError(op)
 
@@ -830,7 +844,22 @@ def run_unit(unit):  # noqa: C901, PLR0912, PLR0915
     return acc
 
 
+_TEMPLATE_FIRST: dict = {}  # (function name, parameters) -> the first case that annotated this template function in this process
+
+
 def _do_pipe(acc, case):
+    if case["mode"] == "ctor":
+        # the re-annotated template functions make a case depend on earlier ones (a hint cache keyed by the function object
+        # remembers the FIRST annotations): the artefact carries the first case of every template it uses
+        mini = {k: case[k] for k in ("topo", "wiring", "anns", "validate", "mode")}
+        keys = [(name, tuple(params)) for name, params, *_ in WIRINGS[case["topo"]][case["wiring"]][0]]
+        firsts = []
+        for k in keys:
+            f0 = _TEMPLATE_FIRST.setdefault(k, mini)
+            if f0 is not mini and f0 not in firsts:
+                firsts.append(f0)
+        if firsts:
+            case = {**case, "after": firsts}
     info, viol = run_pipe(case)
     vs = info["verdicts"]
     anns = [tup(a) for a in case["anns"]]
